@@ -210,6 +210,48 @@ def push_service(ctx, rng, n):
         ps.SnapshotServiceStub, push_mod.convert_snapshot = saved_stub, saved_conv
 
 
+def two_flushes(ctx):
+    """flush really drains - also the SECOND of two flushes (shutdown from an exit hook while the main thread shuts down too):
+    a flush that starts while another is still waiting returns only when every accepted task has finished."""
+    from deep.task import TaskHandler
+    for round_ in range(2):
+        th = TaskHandler()
+        gate = threading.Event()
+        done = []
+
+        def work(i):
+            gate.wait(20)
+            done.append(i)
+        for i in range(3):
+            th.submit_task(work, i)
+        first = threading.Thread(target=th.flush, daemon=True)
+        first.start()
+        wait_until(lambda: not th._open, 3.0)
+        second_out = {}
+
+        def second_body():
+            try:
+                th.flush()
+                second_out["returned_with_done"] = sorted(done)
+            except BaseException as e:
+                second_out["raised"] = repr(e)
+        second = threading.Thread(target=second_body, daemon=True)
+        second.start()
+        second.join(0.3)
+        early = not second.is_alive()
+        gate.set()
+        first.join(20)
+        second.join(20)
+        j = dict(schedule="3 accepted tasks held back; flush on thread 1; flush on thread 2 while thread 1 waits; then the tasks finish",
+                 second_flush=second_out, second_returned_while_tasks_were_held=early)
+        ctx.case(j, nontrivial=True, bucket="two-flushes")
+        if "raised" in second_out:
+            ctx.fail("the second flush raised %s" % second_out["raised"], j, kind="schedule", tag="flush-raised")
+        elif early or second_out.get("returned_with_done") != [0, 1, 2]:
+            ctx.fail("a second flush, begun while the first was still waiting, returned with the tasks %r finished of [0, 1, 2] accepted "
+                     "(it does not drain)" % (second_out.get("returned_with_done"),), j, kind="schedule", tag="flush-early")
+
+
 def run(ctx):
     import logging
     logging.getLogger("deep").setLevel(logging.CRITICAL + 1)
@@ -240,6 +282,7 @@ def run(ctx):
     ctx.correspond("taskhandler", IMPORTS, "tasks_case", "check_tasks_case", lits, cj, shard=100)
     push_service(ctx, rng, 120 if ctx.thorough else 25)
     pool_refuses(ctx)
+    two_flushes(ctx)
 
 
 def replay(ctx, data):
